@@ -65,7 +65,23 @@ extern int mpt_stream_sync(MPT_STRUCT(stream) *srm, size_t idlen, const MPT_STRU
 			return MPT_ERROR(BadArgument);
 		}
 		/* get message data */
-		if (srm->_rd._state.data.msg < 0) {
+		while (srm->_rd._state.data.msg < 0) {
+			/* complete message in buffered data */
+			if ((ret = mpt_queue_recv(&srm->_rd)) > 0) {
+				break;
+			}
+			if (ret < 0 && ret != MPT_ERROR(MissingData)) {
+				int flags = mpt_stream_flags(&srm->_info);
+				/* decoder needs more work space than full queue can offer */
+				if (ret == MPT_ERROR(MissingBuffer)
+				    && (flags & MPT_STREAMFLAG(ReadBuf))
+				    && !(flags & MPT_STREAMFLAG(ReadMap))
+				    && mpt_queue_prepare(&srm->_rd.data, 64)) {
+					continue;
+				}
+				return ret;
+			}
+			/* require further input */
 			if ((ret = mpt_stream_poll(srm, POLLIN, timeout)) < 0) {
 				return MPT_ERROR(BadOperation);
 			}
@@ -75,12 +91,6 @@ extern int mpt_stream_sync(MPT_STRUCT(stream) *srm, size_t idlen, const MPT_STRU
 			if (timeout > 0) {
 				timeout = 0;
 			}
-			if ((ret = mpt_queue_recv(&srm->_rd))) {
-				return ret;
-			}
-			if (ret) {
-				break;
-			}
 		}
 		/* remove processed data */
 		mpt_queue_shift(&srm->_rd);
@@ -89,7 +99,9 @@ extern int mpt_stream_sync(MPT_STRUCT(stream) *srm, size_t idlen, const MPT_STRU
 		mpt_message_get(&srm->_rd.data, srm->_rd._state.data.pos, srm->_rd._state.data.msg, &msg, &vec);
 		
 		/* consume/create message id */
-		mpt_message_read(&msg, idlen, buf);
+		if (mpt_message_read(&msg, idlen, buf) < idlen) {
+			return MPT_MESGERR(ActiveInput);
+		}
 		/* no return type message */
 		if (!(buf[0] & 0x80)) {
 			return MPT_MESGERR(ActiveInput);
@@ -111,8 +123,13 @@ extern int mpt_stream_sync(MPT_STRUCT(stream) *srm, size_t idlen, const MPT_STRU
 			ret = mc->cmd(mc->arg, &msg);
 		}
 		else {
-			continue;
+			ret = 0;
 		}
+		/* consume processed message */
+		srm->_rd._state.data.pos += srm->_rd._state.data.msg;
+		srm->_rd._state.data.len -= srm->_rd._state.data.msg;
+		srm->_rd._state.data.msg = -1;
+		
 		if (ret < 0) {
 			break;
 		}
